@@ -256,12 +256,17 @@ Proof.
   now rewrite oget_single.
 Qed.
 
-(* ---------------------------------------------------------------- shift_lead_n, n >= 2: short groups lose records *)
-Lemma shift_lead_drops_records :
-  exists sps fs gs rs, (List.length (verb_step sps fs gs rs) < List.length rs)%nat.
-Proof.
-  exists [(SShiftLead 2, B "shift_lead_2")], [B "x"], [], [[(B "x", B "1")]]. vm_compute. reflexivity.
-Qed.
+(* ---------------------------------------------------------------- shift_lead_n, n >= 2: short groups (fix: b0d126048: the
+   drain keeps shifting until the group's oldest pending record is at the window centre; before it these records were lost) *)
+Lemma shift_lead_short_group_is_emitted :
+  verb_step [(SShiftLead 2, B "shift_lead_2")] [B "x"] [] [[(B "x", B "1")]]
+  = [[(B "x", OText (B "1")); (B "x_shift_lead_2", OText [])]]
+  /\ verb_step [(SShiftLead 3, B "shift_lead_3"); (SCounter, B "counter")] [B "x"] [B "g"]
+               [[(B "g", B "a"); (B "x", B "1")]; [(B "g", B "b"); (B "x", B "5")]; [(B "g", B "a"); (B "x", B "2")]]
+     = [[(B "g", OText (B "a")); (B "x", OText (B "1")); (B "x_shift_lead_3", OText []); (B "x_counter", OInt 1)];
+        [(B "g", OText (B "b")); (B "x", OText (B "5")); (B "x_shift_lead_3", OText []); (B "x_counter", OInt 1)];
+        [(B "g", OText (B "a")); (B "x", OText (B "2")); (B "x_shift_lead_3", OText []); (B "x_counter", OInt 2)]].
+Proof. vm_compute. split; reflexivity. Qed.
 Lemma shift_lead_1_keeps_this_record :
   verb_step [(SShiftLead 1, B "shift_lead")] [B "x"] [] [[(B "x", B "1")]; [(B "x", B "2")]]
   = [[(B "x", OText (B "1")); (B "x_shift_lead", OText (B "2"))]; [(B "x", OText (B "2")); (B "x_shift_lead", OText [])]].
